@@ -1871,3 +1871,351 @@ def cli_c07(v, tier, seed):
         batches.append((rnd[i:i + bs], [r.choice([2, 3, 4, 7, 16])], b, "rnd"))
     cli.pool_run(v, c07_closure_batch, batches)
     cli.pool_run(v, c07_trace_worker, [(seed * 1_000_003 + i, b) for i in range(n(tier, 3000, 40000))])
+
+
+# ----------------------------------------------------------------------------
+# C01 (CLI layer): the diff A->B pushed onto A gives exactly B, in every dialect
+
+
+C01_DIALECTS = ["plain", "plain-ts", "git", "devnull", "samename", "orig", "quoted", "quoted-git"]
+
+
+def c01_worker(item):
+    seed, binary = item
+    r = random.Random(seed * 899809363 + 1)
+    res = Res()
+    wsgen.AVOID_KNOWN_SHAPES = False
+    a_state = r.choice(["content", "content", "content", "content", "absent", "empty"])
+    b_state = r.choice(["content", "content", "content", "content", "absent", "empty"])
+    if a_state == "absent" and b_state == "absent":
+        b_state = "content"
+    a = wsgen.gen_content(r, r.choice([3, 10, 40])) or b"a\n"
+    b = wsgen.mutate_content(r, a, 5)
+    if r.random() < 0.15:
+        b = wsgen.gen_content(r, 20) or b"other\n"
+    pre = None if a_state == "absent" else (b"" if a_state == "empty" else a)
+    post = None if b_state == "absent" else (b"" if b_state == "empty" else b)
+    if pre == post:
+        post = (post or b"") + b"changed\n"
+        b_state = "content"
+    dialect = r.choice(C01_DIALECTS)
+    name = r.choice(wsgen.NAME_POOL)
+    if dialect.startswith("quoted"):
+        name = r.choice(wsgen.SPECIAL_NAMES)
+    git = dialect in ("git", "quoted-git")
+    kind = "create" if pre is None else ("delete" if post is None else "modify")
+    op = wsgen.Op(kind, name, pre=pre, post=post, pre_mode=None if pre is None else 0o644, post_mode=None if post is None else 0o644)
+    op.ctx = r.choice([0, 0, 1, 2, 3, 3, 5])
+    op.timestamps = dialect == "plain-ts"
+    op.orig_style = dialect == "orig" and pre is not None and post is not None
+    if git:
+        op.style = "git"
+    elif dialect == "samename":
+        op.style = "samename"
+    elif pre is None or post is None:
+        op.style = "devnull"
+    else:
+        op.style = "plain"
+    if op.style == "samename" and post is None:
+        # the same name on both lines cannot express a removal: the file is emptied, not removed
+        post_expected = b""
+    else:
+        post_expected = post
+    strip = r.choice([1, 1, 0, 2, 3])
+    reverse = r.random() < 0.4
+    p = wsgen.PatchSpec("the.patch", [op], strip, reverse, git)
+    wsgen.render_patch(p, r)
+    ws = wsgen.Workspace()
+    ws.seed = seed
+    t_a = {} if pre is None else {name: (pre, 0o644)}
+    t_b = {} if post_expected is None else {name: (post_expected, 0o644)}
+    ws.t0, ws.patches, ws.trees = t_a, [p], [t_a, t_b]
+    hunks = op.hunks or []
+    shape = "regular"
+    if not hunks and not git:
+        # absent <-> empty has no rendering outside the git dialect (diff -N prints nothing): not a case
+        return res
+    if not hunks:
+        shape = "no-hunks-(empty-file-created-or-deleted)"
+    elif pre and post and op.ctx == 0 and len(hunks) == 1 and ((not hunks[0].old() and hunks[0].old_start == 0) or (not hunks[0].new() and hunks[0].new_start == 0)):
+        shape = "empty-side-at-line-0"
+    threads = r.choice([1, 4])
+    args = base_args(threads=threads, backup=r.choice(["never", None]), verbosity="-q") + ["push"]
+    sig0 = {"engine": "cli", "dialect": dialect, "shape": shape, "direction": "reverse" if reverse else "forward"}
+    with Scratch("c01") as scr:
+        orig, work = fresh(scr, ws, 0)
+        rr = runner.run_rq(binary, work, args)
+        res["evals"] = 1
+        before = len(res["violations"])
+        out = cli.check_push_outcome(res, ws, work, rr, 0, 1, sig0, [binary] + args)
+        for v in res["violations"][before:]:
+            v["sig"].pop("driver", None)
+            if v["sig"].get("class") == "exit-status":
+                v["sig"]["class"] = "push-failed"
+                m = __import__("re").search(r"FAILED ([A-Z][a-z ]+[a-z])\.", rr.err.decode("utf-8", "replace"))
+                v["sig"]["reason"] = m.group(1) if m else "?"
+        if out:
+            res.count("held-runs")
+            res.count("dialect:%s" % dialect)
+            res.count("strip=%d" % strip)
+            res.count("direction:%s" % ("reverse" if reverse else "forward"))
+            res.count("A=%s,B=%s" % (a_state, b_state))
+            if hunks:
+                res["nontrivial"].append(case_key(pre, post, op.ctx, dialect, strip, reverse, threads))
+            if any(not h.old() or not h.new() for h in hunks):
+                res.count("hunks-with-an-empty-side")
+            if (pre and not pre.endswith(b"\n")) or (post and not post.endswith(b"\n")):
+                res.count("missing-final-newline")
+            try:
+                (pre or b"").decode("utf-8")
+                (post or b"").decode("utf-8")
+            except UnicodeDecodeError:
+                res.count("non-utf8-content")
+        if seed % 400 == 43:
+            res["sample"] = {"A": None if pre is None else pre.decode("latin-1")[:200], "B": None if post is None else post.decode("latin-1")[:200], "dialect": dialect,
+                             "series_line": p.series_line, "patch": p.text.decode("latin-1")[:600], "args": args, "exit": rr.rc}
+    return res
+
+
+def cli_c01(v, tier, seed):
+    b = rq()
+    cli.pool_run(v, c01_worker, [(seed * 1_000_003 + i, b) for i in range(n(tier, 8000, 150000))])
+
+
+# ----------------------------------------------------------------------------
+# C04 (CLI layer): in-memory rollback of a failing patch that renames / creates / deletes / chmods
+
+
+def c04_worker(item):
+    seed, binary = item
+    r = random.Random(seed * 920419823 + 4)
+    res = Res()
+    cfg = wsgen.GenConfig(p_fail=1.0, max_patches=r.choice([1, 2, 3]), max_ops=r.choice([3, 4, 5]), max_files=r.choice([2, 4]))
+    cfg.kinds = ["modify"] * 3 + ["create"] * 3 + ["delete"] * 3 + ["rename"] * 4 + ["chmod"] * 3 + ["truncate"]
+    cfg.fail_reasons = ["hunks", "hunks", "missing", "create-over", "delete-mismatch"]
+    ws = wsgen.generate(seed, cfg)
+    if ws.fail_at is None:
+        return res
+    threads = r.choice([1, 1, 4])
+    backup = r.choice(["always", "always", None])
+    verbosity = r.choice(["-q", None])
+    args = base_args(threads=threads, backup=backup, verbosity=verbosity) + ["push", "-a"]
+    sig0 = {"engine": "cli", "driver": "seq" if threads == 1 else "par"}
+    with Scratch("c04") as scr:
+        orig, work = fresh(scr, ws, 0)
+        rr = runner.run_rq(binary, work, args)
+        res["evals"] = 1
+        out = cli.check_push_outcome(res, ws, work, rr, 0, len(ws.patches), sig0, [binary] + args)
+        if out:
+            k, exp_tree, fail_idx, obs = out
+            fp = ws.patches[fail_idx]
+            kinds = sorted(set(o.kind for o in fp.ops if not o.poison))
+            res.count("held-runs")
+            for kd in kinds:
+                res.count("undone-in-failing-patch:%s" % kd)
+            if kinds:
+                res["nontrivial"].append(case_key(cli.ws_shape_key(ws), threads, backup, verbosity))
+            # backups replay rollback over the whole window
+            if backup == "always" and k > 0:
+                exp = expected_backups(ws, 0, k, "always", 100, True)
+                got = {p: v for p, v in obs["pc"].items() if v[0] == "f" and p != ".pc/applied-patches"}
+                for p, (data, m) in exp.items():
+                    g = got.get(p)
+                    if g is None or g[1] != data or (m is not None and g[2] != m):
+                        res.viol(dict(sig0, **{"class": "backup-after-rollback-wrong"}), "backup %s does not hold the state before its patch" % p, orig, [binary] + args, extra={"workspace": ws.describe()})
+                        break
+                else:
+                    res.count("backup-windows-verified")
+        if seed % 300 == 47:
+            res["sample"] = {"workspace": ws.describe(), "args": args, "exit": rr.rc}
+    return res
+
+
+def cli_c04(v, tier, seed):
+    b = rq()
+    cli.pool_run(v, c04_worker, [(seed * 1_000_003 + i, b) for i in range(n(tier, 4000, 60000))])
+
+
+# ----------------------------------------------------------------------------
+# C11 (CLI layer): the whole tool on hostile patch and series files exits with 0 or 1
+
+
+def c11_worker(item):
+    import subprocess
+    from common import HARNESS_BIN
+    seed, binary = item
+    r = random.Random(seed * 941083987 + 11)
+    res = Res()
+    with Scratch("c11") as scr:
+        work = os.path.join(scr, "ws")
+        os.makedirs(os.path.join(work, "patches"))
+        for nme, data in (("f", b"a\nb\nc\n"), ("b/f", b"ctx\nold\nctx\n"), ("g h", b"x\n")):
+            fp = os.path.join(work, nme)
+            os.makedirs(os.path.dirname(fp), exist_ok=True)
+            with open(fp, "wb") as f:
+                f.write(data)
+        mode = r.choice(["patch", "patch", "series"])
+        if mode == "patch":
+            src = r.choice(["numeric", "mutant", "vocab", "valid"])
+            # hostile patch text from the harness generators (one index -> bytes)
+            out = os.path.join(scr, "gen.json")
+            idx = r.randrange(10**6) if src != "vocab" else r.randrange(1_200_000)
+            subprocess.run([HARNESS_BIN, "run", "--prop", "C11", "--gen", src, "--seed", str(seed), "--param", "4", "--start", str(idx), "--count", "1", "--out", out, "--keep", "0"],
+                           stdout=subprocess.DEVNULL, stderr=subprocess.DEVNULL, timeout=60)
+            import json as _j
+            try:
+                smp = _j.load(open(out))
+            except Exception:
+                return res
+            data = None
+            for s_ in smp.get("samples", []):
+                data = s_.get("input", "").encode("latin-1")
+            if data is None:
+                # sample not kept (trivial input): regenerate simple hostile text
+                data = b"--- a/f\n+++ b/f\n@@ -%s,1 +1 @@\n-a\n+b\n" % r.choice([b"0", b"1", b"4294967296", b"9223372036854775807", b"18446744073709551615"])
+            with open(os.path.join(work, "patches", "h.patch"), "wb") as f:
+                f.write(data)
+            series = "h.patch" + r.choice(["", " -p0", " -p1", " -R", " -p2 -R"]) + "\n"
+            desc = {"mode": "patch", "source": src, "patch": data.decode("latin-1")[:300], "series": series}
+        else:
+            good = b"--- a/f\n+++ b/f\n@@ -1,3 +1,3 @@\n a\n-b\n+B\n c\n"
+            with open(os.path.join(work, "patches", "ok.patch"), "wb") as f:
+                f.write(good)
+            line = r.choice([
+                "ok.patch -p4000000000", "ok.patch -p18446744073709551615", "ok.patch -p9223372036854775808", "ok.patch -p 99999999999999999999999",
+                "ok.patch -p-1", "ok.patch --strip", "ok.patch -R -R -R", "ok.patch -pX", "ok.patch -p1 extra free args # comment", "ok.patch --unknown-option",
+                "   ok.patch    -p1   ", "\tok.patch\t-p1\t", "ok.patch -p", "ok.patch -", "ok.patch --", "-p1 ok.patch", "ok.patch\x00-p1", "ok.patch \xff\xfe",
+                "#ok.patch", " #ok.patch", "ok.patch -p1 -p2", "ok.patch -p0001", "ok.patch -p+1", "\x0c", "ok.patch -p1\r",
+                "ok.patch -p" + "9" * r.randint(5, 40), "ok.patch " + "-R " * r.randint(1, 50), "ok.patch -p%d" % r.choice([0, 1, 2, 3, 7, 100, 2**31, 2**32, 2**62]),
+            ])
+            series = line + "\n"
+            desc = {"mode": "series", "series": line}
+        with open(os.path.join(work, "series"), "wb") as f:
+            f.write(series.encode("latin-1", "replace"))
+        args = base_args(threads=r.choice([1, 4]), verbosity=r.choice(["-q", None]), extra=r.choice([[], ["-F", "3"], ["--dry-run"], ["--backup", "always"], ["--mmap"]])) + ["push", "-a"]
+        rr = runner.run_rq(binary, work, args, timeout=40)
+        res["evals"] = 1
+        sig0 = {"engine": "cli", "input": desc["mode"]}
+        files = {"series": series.encode("latin-1", "replace")}
+        if mode == "patch":
+            files["h.patch"] = data
+        if rr.timed_out:
+            # isolated confirmation: a 40 s budget for a few hundred bytes of input
+            r2 = runner.run_rq(binary, work, args, timeout=40)
+            if r2.timed_out:
+                res.viol(dict(sig0, **{"class": "no-termination-within-watchdog"}), "did not finish within 40 s (twice): %r" % desc, work, [binary] + args, extra=desc, files=files)
+            else:
+                res["inconclusive"] = "watchdog fired once, not reproducible"
+            return res
+        if rr.crashed():
+            res.viol(dict(sig0, **{"class": "crash", "rc": str(rr.rc), "where": cli.crash_site(rr.err)}), "exit status %s: %s; input %r" % (rr.rc, rr.err.decode("utf-8", "replace")[-300:], desc), work, [binary] + args, extra=desc, files=files)
+            return res
+        res.count("held-runs")
+        res.count("cli-input:%s" % desc["mode"])
+        res.count("cli-exit:%s" % rr.rc)
+        res["nontrivial"].append(case_key(series, desc.get("patch"), tuple(args)))
+        if seed % 300 == 53:
+            res["sample"] = dict(desc, args=args, exit=rr.rc)
+    return res
+
+
+def cli_c11(v, tier, seed):
+    b = rq()
+    from common import build_harness
+    build_harness()
+    cli.pool_run(v, c11_worker, [(seed * 1_000_003 + i, b) for i in range(n(tier, 3000, 40000))])
+
+
+# ----------------------------------------------------------------------------
+# C20 (CLI layer): raising --fuzz never changes a push that already succeeds
+
+
+def c20_worker(item):
+    seed, binary = item
+    r = random.Random(seed * 961748941 + 20)
+    res = Res()
+    cfg = wsgen.GenConfig(p_fail=0.0, max_patches=r.choice([1, 2, 4]), max_files=3, allow_reverse=True)
+    cfg.kinds = ["modify"] * 8 + ["create", "delete"]
+    cfg.ctx_choices = [0, 1, 2, 3, 3, 3]
+    ws = wsgen.generate(seed, cfg)
+    # drift the starting tree: insert lines elsewhere, alter lines (some hunks then need fuzz or an offset)
+    t0 = {}
+    drifted = 0
+    for p, (data, mode) in ws.trees[0].items():
+        lines = wsgen.split_lines(data)
+        if lines and r.random() < 0.8:
+            for _ in range(r.randint(1, 3)):
+                pos = r.randint(0, len(lines))
+                x = r.random()
+                if x < 0.5:
+                    lines[pos:pos] = [b"drift %d\n" % r.randint(0, 9) for _ in range(r.randint(1, 4))]
+                elif x < 0.8 and pos < len(lines):
+                    lines[pos] = b"altered %d\n" % r.randint(0, 9)
+                elif pos < len(lines):
+                    del lines[pos]
+            for i in range(len(lines) - 1):
+                if not lines[i].endswith(b"\n"):
+                    lines[i] += b"\n"
+            drifted += 1
+        t0[p] = (b"".join(lines), mode)
+    ws.trees[0] = t0
+    threads = r.choice([1, 4])
+    backup = r.choice(["always", None])
+
+    def run(fz, tag):
+        w = os.path.join(scr, "w-%s" % tag)
+        runner.copy_ws(orig, w)
+        a = base_args(threads=threads, backup=backup, verbosity="-q") + (["-F", str(fz)] if fz is not None else []) + ["push", "-a"]
+        rr = runner.run_rq(binary, w, a)
+        return rr, cli.observe(w), a
+
+    with Scratch("c20") as scr:
+        orig = os.path.join(scr, "ws.orig")
+        wsgen.materialize(ws, orig, applied=0)
+        f0 = None
+        base = None
+        for fz in (0, 1, 2, 3):
+            rr, o, a = run(fz, "f%d" % fz)
+            res["evals"] += 1
+            if rr.timed_out:
+                res["inconclusive"] = "watchdog"
+                return res
+            if rr.crashed():
+                res.viol({"engine": "cli", "class": "crash", "rc": str(rr.rc), "where": cli.crash_site(rr.err)}, rr.err.decode("utf-8", "replace")[-300:], orig, [binary] + a)
+                return res
+            if rr.rc == 0:
+                f0, base = fz, (rr, o, a)
+                break
+        if f0 is None:
+            res.count("series-that-needs-more-than-fuzz-3-(unjudged)")
+            return res
+        res.count("F0=%d" % f0)
+        for fz in [x for x in (1, 2, 3, 4, 10, 1000) if x > f0]:
+            rr, o, a = run(fz, "g%d" % fz)
+            res["evals"] += 1
+            if rr.timed_out:
+                res["inconclusive"] = "watchdog"
+                return res
+            what = None
+            if rr.rc != 0:
+                what = "fails-with-higher-limit"
+            elif o["tree"] != base[1]["tree"] or o["dirs"] != base[1]["dirs"]:
+                what = "tree-changes-with-higher-limit"
+            elif o["pc"] != base[1]["pc"]:
+                what = "metadata-changes-with-higher-limit"
+            if what:
+                res.viol({"engine": "cli", "class": what}, "applies completely with -F %d; with -F %d: exit %s" % (f0, fz, rr.rc), orig, [binary] + a, extra={"base": base[2], "workspace": ws.describe()})
+                return res
+        res.count("held-workspaces")
+        if f0 >= 1 or drifted:
+            res["nontrivial"].append(case_key(cli.ws_shape_key(ws), tuple(sorted(t0.items())), threads))
+        if f0 >= 1:
+            res.count("F0>=1")
+        if seed % 300 == 59:
+            res["sample"] = {"workspace": ws.describe(), "F0": f0, "limits_compared": [x for x in (1, 2, 3, 4, 10, 1000) if x > f0], "threads": threads}
+    return res
+
+
+def cli_c20(v, tier, seed):
+    b = rq()
+    cli.pool_run(v, c20_worker, [(seed * 1_000_003 + i, b) for i in range(n(tier, 1500, 25000))])
